@@ -8,6 +8,8 @@ import LithiumModel.Minimize
 import LithiumModel.Pairs
 import LithiumModel.SplitJs
 import LithiumModel.SplitAttrs
+import LithiumModel.Cmdline
+import Generated.CmdlineTable
 import LithiumModel.Interest
 import LithiumModel.TempDir
 
@@ -254,6 +256,45 @@ def cmdTempdirConc (taken k sched : String) : String :=
     ",".intercalate (s.procs.map (fun p => match p.got with | some n => toString n | none => "-"))
   | _, _, _ => "bad-op"
 
+/-! ### command line -/
+
+def encStrs (l : List String) : String := encList (l.map (fun s => s.toUTF8.toList))
+
+def mainTableFor (strategy atom : Cmdline.Tok) : Cmdline.Table :=
+  Cmdline.Generated.mainTables.getD (Cmdline.Generated.mainIndex strategy atom) Cmdline.Generated.earlyTable
+
+def encToks (l : List Cmdline.Tok) : String := encList (l.map (fun s => (String.ofList s).toUTF8.toList))
+
+def cmdCmdline (argv : String) : String :=
+  match decList argv with
+  | none => "bad-op"
+  | some toks =>
+    match toks.mapM strOfBytes with
+    | none => "bad-op"
+    | some argv =>
+      match Cmdline.processArgs Cmdline.Generated.earlyTable mainTableFor (argv.map String.toList) with
+      | .exit c => s!"exit {c}"
+      | .ok atom strategy ns tc cond cargs =>
+        let lv := fun (d : String) => Cmdline.lastValue ns d.toList
+        let eff := Strat.effective
+          { chunkSize := (lv "chunk_size").map (fun v => if Cmdline.isIntLit v then Cmdline.intOfLit v else 0),
+            min := Cmdline.intOf ns "min".toList 1, max := Cmdline.intOf ns "max".toList (2 ^ 30),
+            rep := (match (lv "repeat").map String.ofList with
+                    | some "always" => .always
+                    | some "never" => .never
+                    | _ => .last) }
+        let rep := match eff.2.2 with | .always => "always" | .last => "last" | .never => "never"
+        let fam := Cmdline.isMinimizeFamily strategy
+        let optS := fun (d : String) => ((lv d).map String.ofList).getD "None"
+        let mrt := match lv "max_run_time" with
+          | some v => toString (Cmdline.intOfLit v)
+          | none => "None"
+        s!"ok atom={encToks [atom]} strategy={String.ofList strategy} " ++
+        (if fam then s!"min={eff.1} max={eff.2.1} rep={rep} rfr={(lv "repeat_first_round").isSome} mrt={mrt} "
+         else "") ++
+        (if String.ofList strategy == "minimize-balanced" then s!"move={(lv "with_experimental_move").isSome} " else "") ++
+        s!"tempdir={encStrs [optS "tempdir"]} testcase={encToks [tc]} cond={encToks [cond]} args={encToks cargs}"
+
 def step (line : String) : String :=
   match line.splitOn " " with
   | ["lines", d] =>
@@ -267,6 +308,7 @@ def step (line : String) : String :=
   | ["summary", name, cfg, b, p, r, a, verdicts, clock] => cmdSummary name cfg b p r a verdicts clock
   | ["pow2", i] => cmdPow2 i
   | ["classify", to, rc] => cmdClassify to rc
+  | ["cmdline", argv] => cmdCmdline argv
   | ["outputs", regex, sv, out, err, rxo, rxe] =>
     (match decBytes sv, decBytes out, decBytes err with
      | some sv, some o, some e =>
